@@ -44,7 +44,7 @@ NBSP = "\xa0"
 INT_RE = re.compile(r"^-?(0|[1-9][0-9]{0,14})$")
 NUMTEXT = ["0.00001", "0.000025", "-0.00007", "5", "0", "-3", "12", "2024", "1.5", "-0.25", "0.125", "3.75", "100000", "TRUE", "FALSE", "7", "42", "0.5", "1000000.5",
            "123456789012345"]
-NOISES = ["typed", "pad", "nbsp", "trailing-rows", "trailing-cols", "blank-rows", "blank-cols", "header-pad"]
+NOISES = ["typed", "pad", "nbsp", "trailing-rows", "trailing-cols", "blank-rows", "blank-cols", "header-pad", "bom", "remark-row", "md-separator"]
 
 
 # ------------------------------------------------------------------ generator
@@ -178,6 +178,7 @@ def make_grids(sheets, spec, out_labels):
     grids = []
     colmap = {}
     text_sheets = []
+    remark = set()
     for name, head, rows in sheets:
         r0 = rnd(seed, "sheet", name)
         rows = [dict(r) for r in rows]
@@ -257,8 +258,14 @@ def make_grids(sheets, spec, out_labels):
             for _ in range(k):
                 g.append([r0.choice([None, None, "", "  ", NBSP]) for _ in range(r0.randrange(0, w + 1))])
             out_labels.add("noise:trailing-rows")
+        if "remark-row" in kinds and name in ("survey", "choices", "external_choices") and r0.random() < 0.7:
+            # a remark typed to the right of the table, below the last data row: outside every headed column
+            g.append([None] * (len(g[0]) + r0.randrange(1, 3)) + ["remark for the reviewer"])
+            out_labels.add("noise:remark-row")
+            remark.add(name)
         grids.append((name, g))
     make_grids.colmap = colmap
+    make_grids.remark = remark
     make_grids.text_sheets = text_sheets
     return ref_rows, grids
 
@@ -303,7 +310,7 @@ def grids_to_xls(grids, variant=0) -> bytes:
 # ----------------------------------------------------------------- evaluation
 
 EXT = {"md": ".md", "csv": ".csv", "xlsx": ".xlsx", "xlsm": ".xlsm", "xls": ".xls"}
-DELIVERIES = ["path", "pathlike", "bytes", "bytesio", "bytesio-end", "file", "text"]
+DELIVERIES = ["path", "pathlike", "bytes", "bytesio", "bytesio-end", "file", "tempfile", "text"]
 STEMS = ["data", "data", "my form", "form.v2", "Ünï-côdé_1", "x"]
 
 
@@ -337,6 +344,12 @@ def deliver(container, payload, how, explicit, stem, tmp, args):
             arg, used = payload, None
         elif how == "bytesio":
             arg, used = io.BytesIO(payload), None
+        elif how == "tempfile":
+            # an object that wraps a binary file without being an io.IOBase itself
+            fh = tempfile.NamedTemporaryFile(dir=tmp)  # noqa: SIM115
+            fh.write(payload)
+            fh.seek(0)
+            arg, used = fh, None
         elif how == "bytesio-end":
             # a buffer as a writer leaves it (openpyxl's save(buf), buf.write(...)): positioned at its end
             arg, used = io.BytesIO(), None
@@ -418,6 +431,8 @@ def _evaluate(case) -> Outcome:
     labels = set()
     ref_sheets, grids = make_grids(sheets, spec, labels)
     blame = "+".join(sorted(spec["noise"])) if len(spec["noise"]) <= 1 else "several"
+    if "bom" in spec["noise"]:
+        labels.add("noise:bom")      # Excel's "CSV UTF-8" and some editors start a text file with a byte order mark
     blank_rows = "noise:blank-rows" in labels
     blank_cols = "noise:blank-cols" in labels
     colmap = make_grids.colmap
@@ -486,10 +501,25 @@ def _evaluate(case) -> Outcome:
             if base not in payloads:
                 try:
                     # the text containers carry the blank rows too (rows without any cell), not the other kinds of noise
-                    if base == "md":
-                        payloads[base] = render.md_of_sheets(text_sheets, cols=colmap if blank_cols else None).encode("utf-8")
-                    elif base == "csv":
-                        payloads[base] = render.csv_of_sheets(text_sheets, cols=colmap if blank_cols else None).encode("utf-8")
+                    if base in ("md", "csv"):
+                        cols_ = dict(colmap) if (blank_cols or (make_grids.remark and base == "csv")) else None
+                        tsheets = text_sheets
+                        if make_grids.remark and base == "csv":
+                            # the same remark cell, one column to the right of the last header
+                            # (not in Markdown: a value under a header-less column is refused there, and a pinned test says so)
+                            tsheets = []
+                            for name, head, rows in text_sheets:
+                                if name in make_grids.remark:
+                                    cc = list((cols_ or {}).get(name, head)) + [None]
+                                    cols_[name] = cc
+                                    rows = [*rows, {"__remark": "remark for the reviewer"}]
+                                tsheets.append((name, head, rows))
+                        txt = (render.md_of_sheets if base == "md" else render.csv_of_sheets)(tsheets, cols=cols_, remark_key="__remark")
+                        if base == "md" and "md-separator" in spec["noise"]:
+                            from vf.props.c11 import with_separators
+                            txt = with_separators(txt, ["spaced", "plain", "aligned", "left"][seed % 4])
+                            labels.add("noise:md-separator")
+                        payloads[base] = (b"\xef\xbb\xbf" if "noise:bom" in labels else b"") + txt.encode("utf-8")
                     elif base == "xlsx":
                         payloads[base] = grids_to_xlsx(grids)
                     else:
@@ -508,7 +538,7 @@ def _evaluate(case) -> Outcome:
                 out.label("stem:other")
             pairs.add((cont, how))
             where = f"{cont}|{how}|{'explicit' if explicit else 'implicit'}"
-            tagbase = f"{base}|{blame if noisy else '+'.join(x for x, on in (('blank-rows', blank_rows), ('blank-cols', blank_cols), ('nbsp', nbsp)) if on) or '-'}"
+            tagbase = f"{base}|{blame if noisy else '+'.join(x for x, on in (('blank-rows', blank_rows), ('blank-cols', blank_cols), ('nbsp', nbsp), ('bom', "noise:bom" in labels), ('md-separator', base == "md" and "md-separator" in spec["noise"]), ('remark-row', bool(make_grids.remark) and base == "csv")) if on) or '-'}"
             _compare(out, status, res, sr, rr_, where, tagbase, base, used, form)
     finally:
         shutil.rmtree(tmp, ignore_errors=True)
